@@ -24,6 +24,18 @@ CHECKS = {
         "whose intermediates leave the single-precision range are generated but not compared.",
         "4/C01",
     ),
+    "C10": (
+        "Hypothesis-generated chopper configurations vs an independent rotating-disk simulator (reference model); "
+        "constructed invalid inputs for the rejection clauses",
+        "Generated-input search against a reference model: every reported open/close pair of DiskChopper and of "
+        "Chopper.from_disk_chopper(npulses=1..4) is replayed on a rotating-disk simulator written from the module "
+        "documentation (open inside, closed just outside, duration, multiset equality with the simulator's openings in "
+        "the covered span, so duplicates and omissions are both caught); out-of-phase frequencies and overlapping slit "
+        "sets (also modulo 360 deg) are constructed and must raise ValueError.",
+        "Trusted: the disk kinematics stated in the module docs; tolerance bands: |delta| in [1e-6,1e-2] rejected, "
+        "<= 1e-10 accepted. Which time span the result covers is not asserted (the property does not state it).",
+        "4/C10",
+    ),
 }
 
 NOT_YET = "check not built yet (work in progress; every property is planned to be claimed, see DESIGN.md section 4)"
